@@ -113,7 +113,7 @@ def run_one(seed, index, tier):
         violations=res['violations'],
         dims=sorted({_dim(a) for a in tr['world']['algebras']}),
         opmix=_opmix(tr),
-        arms=[k for k in ('twins', 'instr', 'instr_poly', 'warn_as_error') if tr['world'].get(k)] +
+        arms=[k for k in ('twins', 'race', 'instr', 'instr_poly', 'warn_as_error', 'hold_refs') if tr['world'].get(k)] +
              (['mirror'] if _is_mirror(tr) else []) + (['graded'] if any(a.get('graded') for a in tr['world']['algebras']) else []) +
              (['cse_off'] if any(a.get('cse') is False for a in tr['world']['algebras']) else []) +
              (['sympy_symbolcls'] if any(a.get('symbolcls') for a in tr['world']['algebras']) else []) +
